@@ -76,10 +76,23 @@ def run(tier, seed, drv):
                     res.case(f"late-master:{si}:{who}:{late}:{at}:{b}", nontrivial=bool(raised))
                     res.count("late-master-early-interrupt" if raised else "late-master-early-interrupt-not-raised")
                     SC.check_run(s2, run_, drv, res, monitors_on=("initial_tick", "device_order", "inputs_latest"), corr=("ticker",), case_extra={"bus": b})
+    # ... and with the scheduler up first and the components (system simulations included) joining one after another, so
+    # that the initial Input of a late one is already waiting on its topic when it subscribes
+    for si, scn in enumerate(shapes(rng)):
+        tops = [c["name"] for c in scn["components"]]
+        vecs = [{t: 2 + 2 * i for i, t in enumerate(tops)}, {t: 2 + 2 * (len(tops) - i) for i, t in enumerate(tops)}]
+        vecs += [{c["name"]: k} for c in scn["components"] if c["kind"] == "sys" for k in (2, 5)]
+        for delays in vecs:
+            s2 = dict(copy.deepcopy(scn), start_delays=delays, n_ticks=1)
+            for b in ("sync", "internal", "kafka"):
+                run_ = run_scenario(s2, bus=b, seed=seed)
+                res.case(f"late-components:{si}:{sorted(delays.items())}:{b}", nontrivial=True)
+                res.count("late-components")
+                SC.check_run(s2, run_, drv, res, monitors_on=("initial_tick", "device_order", "inputs_latest"), corr=("ticker",), case_extra={"bus": b})
     res.rule = ("4 hand-written shapes named by the property (unfed inner device exposed outward; system without external inputs; depth 3 without "
                 "inputs/expose; pass-through expose) + corpus + generated flat/nested configurations (depth <= 3), each under the synchronous and a "
                 "delaying bus, initial times 0/7/1e6/-5; the initial tick is compared with the Lean whole-simulation model and monitored directly "
-                "(every device once, at t0, in dependency order, inputs = latest upstream outputs); the 4 shapes also with a late master scheduler and an interrupt of an input-less device (at any depth) raised before it is up. non-trivial = more than one device")
+                "(every device once, at t0, in dependency order, inputs = latest upstream outputs); the 4 shapes also with a late master scheduler and an interrupt of an input-less device (at any depth) raised before it is up, and with the scheduler first and the components (systems included) joining late one after another. non-trivial = more than one device")
     return res
 
 
